@@ -62,6 +62,7 @@ def hist_streams(prop, focus, quick_n, thorough_n, exhaustive_len=(1, 2)):
     def exh(tier):
         yield from histgen.small_histories(1, reduced=False)
         yield from histgen.small_histories(2, tiny=True)
+        yield from histgen.view_histories()
         if tier == 'thorough':
             yield from histgen.mixed_histories()
     out.append(Stream('small-scope', chk, exhaustive=exh))
